@@ -167,6 +167,7 @@ def build():
                    may_raise=["ASTXpathDefinitionError"] if variant else [],
                    ensures=[f"result == xp_findall({X}, self)"]))
     find_all_body(world, lib, reg, nv, EL, NI, XP, elem_ok)
+    lem_legacy = legacy_matcher(world, lib, reg, nv)
     from pyvc.verify import Lemma
     t_, e_ = z3.Const("t_aa", TREE.z3()), z3.Const("e_aa", SE.z3())
     a_, b_ = z3.Const("a_aa", SR.z3()), z3.Const("b_aa", SR.z3())
@@ -192,7 +193,7 @@ def build():
         return [ih], z3.Implies(allin.t(t_, whole), allin.t(t_, a_))
     lem = [Lemma("any_anc-concat", [("base", aa_base), ("step", aa_step)], ["C07"]),
            Lemma("all_in_tree-prefix", [("base", ai_base), ("step", ai_step)], ["C07"])]
-    return world, lib, reg, lem
+    return world, lib, reg, lem + lem_legacy
 
 
 def find_all_body(world, lib, reg, nv, EL, NI, XP, elem_ok):
@@ -324,3 +325,112 @@ def find_all_body(world, lib, reg, nv, EL, NI, XP, elem_ok):
                       4: Loop(inv=["new_work == add_matching_children(new_work_at4, done4, n_info.node, el, dummy_root)", "seq4 == kids(n_info.node)"])},
                note="the nodes of the positions selected by the top-down semantics TD over the path's steps, in first-insertion order, each position once"))
     reg.contracts[f"{XM_}:ASTXpath.findall#body"].fn = f"{XM_}:ASTXpath.findall"
+
+
+def legacy_matcher(world, lib, reg, nv):
+    """C20: the legacy bottom-up matcher pyoak.legacy.match.xpath._match_node_xpath against the chain predicate LMX.
+
+    Legacy nodes know their position: l_parent / l_field_name / l_index are functions of the node (pure during a match);
+    l_chain(n) is what n.ancestors() yields (proved below to be the parent chain).  Elements are reversed (last step first);
+    the list may end in the AnywhereElement sentinel (a leading '//').
+      LMX(None, els)  = els == [] or els[0] is the sentinel
+      LMX(n, [])      = False
+      LMX(n, els)     = True                                                  if els[0] is the sentinel
+                      = (els[0].anywhere and some ancestor a of n has LMX(a, els))
+                        or (step(n, els[0]) and LMX(parent(n), els[1:]))     otherwise"""
+    from pyvc.values import VRec
+    REF, CLS = nv.REF, nv.CLS
+    OREF, OINT, OSTR = opt_of(REF), opt_of(INT), opt_of(STR)
+    LEL = rec_sort("LXEl", [("ast_class", CLS), ("parent_field", OSTR), ("parent_index", OINT), ("anywhere", BOOL), ("is_sentinel", BOOL)], pycls="LegacyXEl")
+    SL, SR = seq_of(LEL), seq_of(REF)
+    l_parent = z3.Function("l_parent", REF.z3(), OREF.z3())
+    l_fname = z3.Function("l_parent_field_name", REF.z3(), OSTR.z3())
+    l_index = z3.Function("l_parent_index", REF.z3(), OINT.z3())
+    l_chain = z3.Function("l_chain", REF.z3(), SR.z3())
+    g = lambda t, f: LEL.get(LEL.wrap(t).term, f).term
+    step = lambda n, el: z3.And(nv.subclass(nv.cls_of(n), g(el, "ast_class")),
+                                z3.Or(OSTR.is_none(g(el, "parent_field")), g(el, "parent_field") == l_fname(n)),
+                                z3.Or(OINT.is_none(g(el, "parent_index")), g(el, "parent_index") == l_index(n)))
+    LMX = lib.fn("LMX", [OREF, SL], BOOL)
+    lany = lib.fn("l_any_anc", [SR, SL], BOOL)
+
+    def lmx_cons(a, p):
+        n, (el, tail) = a[0], p
+        nn = OREF.val(n)
+        return z3.If(OREF.is_none(n), g(el, "is_sentinel"),
+                     z3.If(g(el, "is_sentinel"), z3.BoolVal(True),
+                           z3.Or(z3.And(g(el, "anywhere"), lany.t(l_chain(nn), a[1])), z3.And(step(nn, el), LMX.t(l_parent(nn), tail)))))
+
+    LMX.rule("LMX-empty", 1, "empty")(lambda a, p: OREF.is_none(a[0]))
+    LMX.rule("LMX-cons", 1, "cons")(lmx_cons)
+    lany.rule("l_any_anc-empty", 0, "empty")(lambda a, p: z3.BoolVal(False))
+    lany.rule("l_any_anc-snoc", 0, "snoc")(lambda a, p: z3.Or(lany.t(p[0], a[1]), LMX.t(OREF.some(REF.wrap(p[1])).term, a[1])))
+    lany.rule("l_any_anc-concat", 0, "concat", "lemma")(lambda a, p: z3.Or(lany.t(p[0], a[1]), lany.t(p[1], a[1])))
+    sf = world.spec_fns
+    sf.update({"LMX": LMX, "l_any_anc": lany, "l_chain": lambda n: SR.wrap(l_chain(nv.ref(n))), "l_parent": lambda n: VOpt(l_parent(nv.ref(n)), OREF)})
+
+    def in_legacy(m):
+        return m.contract.module.startswith("pyoak.legacy")
+
+    def attr(m, obj, name):
+        if in_legacy(m) and isinstance(obj, VU) and obj.sort == REF:
+            if name == "parent":
+                return VOpt(l_parent(obj.term), OREF)
+            if name == "parent_field":
+                return VPy(("l_parent_field", obj))
+            if name == "parent_index":
+                return VOpt(l_index(obj.term), OINT)
+            if name == "ancestors":
+                from pyvc.values import VBound
+                return VBound(obj, "ancestors")
+        if isinstance(obj, VPy) and isinstance(obj.obj, tuple) and obj.obj[0] == "l_parent_field" and name == "name":
+            # node.parent_field.name, guarded by the truthiness of node.parent_field
+            return STR.wrap(OSTR.val(l_fname(obj.obj[1].term)))
+        return None
+
+    def truth(m, v):
+        if isinstance(v, VPy) and isinstance(v.obj, tuple) and v.obj[0] == "l_parent_field":
+            return z3.Not(OSTR.is_none(l_fname(v.obj[1].term)))
+        return None
+
+    def isinst(m, v, cls):
+        name = getattr(cls, "name", "")
+        if isinstance(v, VRec) and v.sort == LEL and name == "ASTXpathAnywhereElement":
+            return g(v.term, "is_sentinel")
+        return None
+
+    def call(m, func, a, kw, nd):
+        from pyvc.values import VBound
+        if isinstance(func, VBound) and func.name == "ancestors" and isinstance(func.recv, VU) and func.recv.sort == REF:
+            return m.call_contract(f"{LXM}:legacy-ancestors", [func.recv], {})
+        return NotImplemented
+
+    world.attr_hooks.insert(0, attr)
+    world.truth_hooks.insert(0, truth)
+    world.isinstance_hooks.insert(0, isinst)
+    world.call_hooks.insert(0, call)
+    world.name_hooks.append(lambda m, n: VCls(n) if n in ("ASTXpathAnywhereElement",) else None)
+    A = reg.add
+    P = ["C20"]
+    A(Contract(f"{LXM}:legacy-ancestors", params={"self": "Ref"}, returns="Seq[Ref]", props=P, trusted=True,
+               trusted_reason="AwareASTNode.ancestors(): the chain of .parent links (a 4-line generator; the parent slots themselves are the state of C18)",
+               ensures=["result == l_chain(self)"]))
+    A(Contract(f"{LXM}:_match_node_xpath", params={"node": "Opt[Ref]", "elements": "Seq[LXEl]"}, returns="bool", props=P,
+               ensures=["result == LMX(node, elements)"],
+               loops={1: Loop(inv=["not l_any_anc(done1, elements)", "seq1 == l_chain(node)"])},
+               note="LMX: the bottom-up chain predicate of the docstring above; the recursive calls are the induction hypothesis (on the chain length plus the number of elements)"))
+    from pyvc.verify import Lemma
+    e_ = z3.Const("e_la", SL.z3())
+    a_, b_ = z3.Const("a_la", SR.z3()), z3.Const("b_la", SR.z3())
+    y_ = z3.Const("y_la", REF.z3())
+    E = z3.Empty(SR.z3())
+
+    def la_base(bank):
+        return [], lany.t(z3.Concat(a_, E), e_) == z3.Or(lany.t(a_, e_), lany.t(E, e_))
+
+    def la_step(bank):
+        ih = lany.t(z3.Concat(a_, b_), e_) == z3.Or(lany.t(a_, e_), lany.t(b_, e_))
+        whole = z3.Concat(a_, mk_snoc(b_, y_))
+        bank.add(whole, ("snoc", z3.Concat(a_, b_), y_))
+        return [ih], lany.t(whole, e_) == z3.Or(lany.t(a_, e_), lany.t(mk_snoc(b_, y_), e_))
+    return [Lemma("l_any_anc-concat", [("base", la_base), ("step", la_step)], P)]
